@@ -1,1 +1,482 @@
-(* Proofs/AggFlags.v -- lemmas; see DESIGN.md section 7 *)
+(* Proofs/AggFlags.v -- property C08: the include_undocumented_* options only decide whether
+   commands WITHOUT a doccomment yield entries.  Theorems about Model/Aggregator.v. *)
+From Coq Require Import String List NArith Bool Arith Lia.
+From CMinx Require Import Base.Str Model.Lexer Model.Parser Model.Writer Model.DocTypes
+     Model.Aggregator Spec.AggSpec Proofs.AggClass.
+Import ListNotations.
+
+(* ---- spec ---- *)
+
+(* the one option a command kind consults (None: no option is consulted) *)
+Definition flag_of_handler (h : handler) : option (flags -> bool) :=
+  match h with
+  | HFunction => Some inc_function
+  | HMacro => Some inc_macro
+  | HClass => Some inc_cpp_class
+  | HAttr => Some inc_cpp_attr
+  | HCtor => Some inc_cpp_constructor
+  | HMember => Some inc_cpp_member
+  | HTest => Some inc_ct_add_test
+  | HSection => Some inc_ct_add_section
+  | HAddTest => Some inc_add_test
+  | HOption => Some inc_option
+  | HCpa | HSet => None
+  end.
+
+Definition flag_of_kind (k : str) : option (flags -> bool) :=
+  match lookup k handler_table with
+  | Some h => flag_of_handler h
+  | None => None
+  end.
+
+Definition agree_on (k : str) (fl1 fl2 : flags) : Prop :=
+  match flag_of_kind k with
+  | Some f => f fl1 = f fl2
+  | None => True
+  end.
+
+(* a function/macro command that is taken as the implementation of a pending test or
+   member declaration *)
+Definition claimed (k : str) (st : agg) : bool :=
+  is_def_name k && match awaiting st with AwNone => false | _ => true end.
+
+(* what a hidden command (option off, no doccomment) still does to the state *)
+Definition hidden_effect (k : str) (st : agg) : agg :=
+  if is_def_name k then with_def_stack (None :: def_stack st) st
+  else if str_eqb k (s"cpp_class") then with_class_stack (None :: class_stack st) st
+  else st.
+
+Example flag_of_kind_examples :
+  flag_of_kind (s"cpp_attr") = Some inc_cpp_attr
+  /\ flag_of_kind (s"function") = Some inc_function
+  /\ flag_of_kind (s"ct_add_section") = Some inc_ct_add_section
+  /\ flag_of_kind (s"set") = None
+  /\ flag_of_kind (s"message") = None.
+Proof. vm_compute. repeat split. Qed.
+
+(* ---- helpers ---- *)
+
+Lemma include_flag_via : forall fl h,
+    include_flag fl h = option_map (fun f => f fl) (flag_of_handler h).
+Proof. intros fl h; destruct h; reflexivity. Qed.
+
+Lemma flag_of_handler_default : forall h f, flag_of_handler h = Some f -> f default_flags = true.
+Proof. intros h f H; destruct h; inversion H; reflexivity. Qed.
+
+Section WithParams.
+  Variable trigger : str.
+  Variables strip_fn strip_mac strip_mem : str -> str.
+
+  Notation step fl := (agg_step fl trigger strip_fn strip_mac strip_mem).
+  Notation run fl := (agg_run fl trigger strip_fn strip_mac strip_mem).
+  Notation entercmd fl := (enter_command fl trigger strip_fn strip_mac strip_mem).
+  Notation enterdoc := (enter_documented trigger strip_fn strip_mac).
+  Notation runh := (run_handler trigger strip_fn strip_mac).
+
+  (* ---- G4 first: the flags are consulted only through the one option of the kind ----- *)
+
+  Lemma enter_command_agree : forall fl1 fl2 consumed c st,
+      agree_on (cmd_kind c) fl1 fl2 ->
+      entercmd fl1 consumed c st = entercmd fl2 consumed c st.
+  Proof.
+    intros fl1 fl2 consumed c st H. unfold agree_on, flag_of_kind in H.
+    assert (A : str_eqb (cmd_kind c) (s"cpp_class") && negb (inc_cpp_class fl1)
+                = str_eqb (cmd_kind c) (s"cpp_class") && negb (inc_cpp_class fl2)).
+    { destruct (str_eqb (cmd_kind c) (s"cpp_class")) eqn:E; [|reflexivity].
+      apply str_eqb_eq in E. rewrite E in H.
+      change (lookup (s"cpp_class") handler_table) with (Some HClass) in H.
+      cbn [flag_of_handler] in H. rewrite H. reflexivity. }
+    assert (B : forall h, lookup (cmd_kind c) handler_table = Some h ->
+                          include_flag fl1 h = include_flag fl2 h).
+    { intros h L. rewrite L in H. rewrite !include_flag_via.
+      destruct (flag_of_handler h) as [f|]; cbn [option_map]; [rewrite H|]; reflexivity. }
+    unfold enter_command. cbv zeta. fold (cmd_kind c). rewrite A.
+    destruct (lookup (cmd_kind c) handler_table) as [h|] eqn:L; [|reflexivity].
+    first [rewrite (B h eq_refl)|rewrite (B h L)]. reflexivity.
+  Qed.
+
+  Theorem flags_only_via_include_flag : forall fl1 fl2 st e,
+      (forall k, elem_kind e = Some k -> agree_on k fl1 fl2) ->
+      step fl1 st e = step fl2 st e.
+  Proof.
+    intros fl1 fl2 st e H. destruct e as [d c|c|d]; cbn [agg_step].
+    - destruct (enterdoc d c st) as [st1|]; [|reflexivity].
+      apply enter_command_agree. apply H. reflexivity.
+    - apply enter_command_agree. apply H. reflexivity.
+    - reflexivity.
+  Qed.
+
+  (* a whole run depends only on the options of the kinds that occur *)
+  Corollary run_flags_agree : forall fl1 fl2 es st,
+      (forall e k, In e es -> elem_kind e = Some k -> agree_on k fl1 fl2) ->
+      run fl1 st es = run fl2 st es.
+  Proof.
+    intros fl1 fl2 es. induction es as [|e r IH]; intros st H; cbn [agg_run]; [reflexivity|].
+    rewrite (flags_only_via_include_flag fl1 fl2 st e)
+      by (intros k Hk; apply (H e k); [left; reflexivity|exact Hk]).
+    destruct (step fl2 st e) as [st1|]; [|reflexivity].
+    apply IH. intros e' k Hin Hk. apply (H e' k); [right; exact Hin|exact Hk].
+  Qed.
+
+  (* ---- G1: doccomment-carrying commands ---------------------------------------------- *)
+
+  (* enter_documented has no flags argument at all (its type, after the model's Section is
+     closed, is  str -> (str -> str) -> (str -> str) -> str -> cmd -> agg -> result agg):
+     the entry of a doccomment-carrying command is created without consulting any option.
+     What remains of the step is enter_command with consumed = true. *)
+  Lemma enter_documented_flag_free : forall fl d c st,
+      step fl st (EDocCmd d c)
+      = match enter_documented trigger strip_fn strip_mac d c st with
+        | Ok st1 => entercmd fl true c st1
+        | Crash => Crash
+        end.
+  Proof. reflexivity. Qed.
+
+  (* with consumed = true the only option ever read is the class one, for cpp_class *)
+  Lemma enter_command_consumed_flag_free : forall fl1 fl2 c st,
+      cmd_kind c <> s"cpp_class" \/ inc_cpp_class fl1 = inc_cpp_class fl2 ->
+      entercmd fl1 true c st = entercmd fl2 true c st.
+  Proof.
+    intros fl1 fl2 c st H. unfold enter_command. cbv zeta. fold (cmd_kind c).
+    assert (A : str_eqb (cmd_kind c) (s"cpp_class") && negb (inc_cpp_class fl1)
+                = str_eqb (cmd_kind c) (s"cpp_class") && negb (inc_cpp_class fl2)).
+    { destruct H as [H|H]; [apply str_eqb_neq in H; rewrite H; reflexivity|rewrite H; reflexivity]. }
+    rewrite A. cbn [negb]. rewrite andb_false_r. reflexivity.
+  Qed.
+
+  Theorem documented_step_flag_independent : forall fl st d c,
+      cmd_kind c <> s"cpp_class" ->
+      step fl st (EDocCmd d c) = step default_flags st (EDocCmd d c).
+  Proof.
+    intros fl st d c Hk. rewrite !enter_documented_flag_free.
+    destruct (enterdoc d c st) as [st1|]; [|reflexivity].
+    apply enter_command_consumed_flag_free. left. exact Hk.
+  Qed.
+
+  Theorem documented_class_step_flag_on : forall fl st d c,
+      inc_cpp_class fl = true ->
+      step fl st (EDocCmd d c) = step default_flags st (EDocCmd d c).
+  Proof.
+    intros fl st d c Hfl. rewrite !enter_documented_flag_free.
+    destruct (enterdoc d c st) as [st1|]; [|reflexivity].
+    apply enter_command_consumed_flag_free. right. rewrite Hfl. reflexivity.
+  Qed.
+
+  (* finding F9: with the class option off, a doccomment-carrying cpp_class yields the same
+     entry as under default settings but pushes one extra None frame on the class stack *)
+  Theorem F9_documented_class_pushes_none : forall fl st d c st1,
+      cmd_kind c = s"cpp_class" ->
+      inc_cpp_class fl = false ->
+      step default_flags st (EDocCmd d c) = Ok st1 ->
+      step fl st (EDocCmd d c) = Ok (with_class_stack (None :: class_stack st1) st1).
+  Proof.
+    intros fl st d c st1 Hk Hfl Hdef.
+    pose proof (step_class trigger strip_fn strip_mac strip_mem default_flags (Some d) c st Hk eq_refl)
+      as Hd.
+    cbn [elem_of doc_of docd_of] in Hd. rewrite Hd in Hdef. inversion Hdef; subst st1; clear Hdef.
+    apply step_class_doc_flag_off; assumption.
+  Qed.
+
+  (* ---- G2: option off, no doccomment: no entry ---------------------------------------- *)
+
+  Theorem undocumented_flag_off_no_entry : forall fl c st h,
+      lookup (cmd_kind c) handler_table = Some h ->
+      include_flag fl h = Some false ->
+      claimed (cmd_kind c) st = false ->
+      step fl st (ECmd c) = Ok (hidden_effect (cmd_kind c) st).
+  Proof.
+    intros fl c st h L Hf Hcl. apply lookup_handler_kind in L.
+    unfold claimed in Hcl. unfold hidden_effect.
+    cbn [agg_step]. unfold enter_command. cbv zeta. fold (cmd_kind c).
+    rewrite L in *.
+    destruct h; cbn [kind_name] in *; cbn [include_flag] in Hf; try discriminate Hf;
+      injection Hf as Hf'; revert Hcl; eval_closed; eval_lookup;
+      cbn [andb orb negb include_flag]; intro Hcl; rewrite ?Hcl, ?Hf'; reflexivity.
+  Qed.
+
+  Corollary undocumented_flag_off_entries_unchanged : forall fl c st st' h,
+      lookup (cmd_kind c) handler_table = Some h ->
+      include_flag fl h = Some false ->
+      claimed (cmd_kind c) st = false ->
+      step fl st (ECmd c) = Ok st' ->
+      documented st' = documented st /\ origins st' = origins st /\ awaiting st' = awaiting st
+      /\ (st' = st
+          \/ st' = with_def_stack (None :: def_stack st) st
+          \/ st' = with_class_stack (None :: class_stack st) st).
+  Proof.
+    intros fl c st st' h L Hf Hcl Hstep.
+    rewrite (undocumented_flag_off_no_entry fl c st h L Hf Hcl) in Hstep.
+    inversion Hstep; subst st'; clear Hstep. unfold hidden_effect.
+    destruct (is_def_name (cmd_kind c)); [repeat split; auto|].
+    destruct (str_eqb (cmd_kind c) (s"cpp_class")); repeat split; auto.
+  Qed.
+
+  (* a claimed definition is processed without consulting any option, and adds no entry *)
+  Theorem claimed_definition_flag_free : forall fl consumed c st,
+      claimed (cmd_kind c) st = true ->
+      entercmd fl consumed c st = entercmd default_flags consumed c st
+      /\ forall st', entercmd fl consumed c st = Ok st' ->
+                     length (documented st') = length (documented st)
+                     /\ origins st' = origins st.
+  Proof.
+    intros fl consumed c st Hcl. unfold claimed in Hcl.
+    assert (Hd : is_def_name (cmd_kind c) = true).
+    { apply andb_true_iff in Hcl. destruct Hcl as [Hcl _]. exact Hcl. }
+    assert (E : forall fl0, entercmd fl0 consumed c st
+                = let st2 := with_awaiting AwNone
+                               (with_docs (upd_awaiting_entry (awaiting st)
+                                             (str_eqb (cmd_kind c) (s"macro"))
+                                             (skipn 2 (match awaiting st with
+                                                       | AwMethod _ _ => map strip_mem (singles c)
+                                                       | _ => singles c
+                                                       end))) st) in
+                  if consumed then Ok st2 else Ok (with_def_stack (None :: def_stack st2) st2)).
+    { intros fl0. unfold enter_command. cbv zeta. fold (cmd_kind c). rewrite Hcl.
+      rewrite skipn2_guard.
+      unfold is_def_name in Hd. apply orb_true_iff in Hd.
+      destruct Hd as [Hd|Hd]; apply str_eqb_eq in Hd; rewrite Hd; eval_closed;
+        cbn [andb orb negb]; reflexivity. }
+    split; [rewrite !E; reflexivity|].
+    intros st' H. rewrite E in H. cbv zeta in H.
+    assert (L : forall a mac extra,
+               length (upd_awaiting_entry a mac extra (documented st)) = length (documented st)).
+    { intros a mac extra. destruct a; cbn [upd_awaiting_entry]; rewrite ?length_update_nth; reflexivity. }
+    destruct consumed; inversion H; subst st';
+      cbn [documented origins with_docs with_awaiting with_def_stack]; rewrite L; split; reflexivity.
+  Qed.
+
+  (* ---- G3: option on: as under default settings ---------------------------------------- *)
+
+  Theorem undocumented_flag_on_as_default : forall fl c st h,
+      lookup (cmd_kind c) handler_table = Some h ->
+      include_flag fl h = Some true ->
+      step fl st (ECmd c) = step default_flags st (ECmd c).
+  Proof.
+    intros fl c st h L Hf. apply flags_only_via_include_flag.
+    intros k Hk. inversion Hk; subst k; clear Hk.
+    unfold agree_on, flag_of_kind. rewrite L.
+    rewrite include_flag_via in Hf.
+    destruct (flag_of_handler h) as [f|] eqn:Ef; [|exact I].
+    cbn [option_map] in Hf. injection Hf as Hf'.
+    rewrite (flag_of_handler_default h f Ef). exact Hf'.
+  Qed.
+
+  (* kinds that consult no option at all behave the same under every setting *)
+  Corollary no_flag_kind_step : forall fl1 fl2 st e,
+      (forall k, elem_kind e = Some k -> flag_of_kind k = None) ->
+      step fl1 st e = step fl2 st e.
+  Proof.
+    intros fl1 fl2 st e H. apply flags_only_via_include_flag.
+    intros k Hk. unfold agree_on. rewrite (H k Hk). exact I.
+  Qed.
+
+End WithParams.
+
+(* ======================================================================================== *)
+(* G5: the entries stemming from doccomments are the same under every setting              *)
+(* ======================================================================================== *)
+
+(* ---- spec ---- *)
+
+(* the entries that stem from a doccomment (origins is the ghost list parallel to documented) *)
+Definition from_doc (st : agg) : list entry :=
+  map fst (filter snd (combine (documented st) (origins st))).
+
+(* what of an entry stems from its own doccomment-carrying commands: members and attributes
+   declared without a doccomment and the inner-class name list come from other commands *)
+Definition doc_view (e : entry) : entry :=
+  match e with
+  | EClass n d su inner ct me at_ =>
+      EClass n d su [] (filter m_docd ct) (filter m_docd me) (filter a_docd at_)
+  | _ => e
+  end.
+
+Definition is_doc_class_elem (e : element) : bool :=
+  match e with EDocCmd _ c => kind_is c (s"cpp_class") | _ => false end.
+Definition is_unnamed_class_elem (e : element) : bool :=
+  match e with
+  | ECmd c => kind_is c (s"cpp_class") && match singles c with [] => true | _ :: _ => false end
+  | _ => false
+  end.
+
+(* F9 cannot strike: the class option is on, or no cpp_class carries a doccomment (and then,
+   so that both settings push the same number of frames, every cpp_class has a name) *)
+Definition no_F9 (fl : flags) (es : list element) : bool :=
+  inc_cpp_class fl
+  || (negb (existsb is_doc_class_elem es) && negb (existsb is_unnamed_class_elem es)).
+
+Definition is_decl_kind (k : str) : bool :=
+  str_eqb k (s"ct_add_test") || str_eqb k (s"ct_add_section")
+  || str_eqb k (s"cpp_member") || str_eqb k (s"cpp_constructor").
+Definition elem_is_decl (e : element) : bool :=
+  match elem_kind e with Some k => is_decl_kind k | None => false end.
+Definition elem_is_def (e : element) : bool :=
+  match elem_kind e with Some k => is_def_name k | None => false end.
+
+(* every test / member declaration is immediately followed by the function or macro that
+   implements it (so no declaration is ever pending when another one arrives) *)
+Fixpoint decls_followed (es : list element) : bool :=
+  match es with
+  | [] => true
+  | e :: r =>
+      (if elem_is_decl e then match r with e2 :: _ => elem_is_def e2 | [] => true end else true)
+      && decls_followed r
+  end.
+
+(* ---- the documented-only abstraction of a state ---------------------------------------- *)
+
+Fixpoint sel {A} (l : list A) (os : list bool) : list A :=
+  match l, os with
+  | x :: l', b :: os' => if b then x :: sel l' os' else sel l' os'
+  | _, _ => []
+  end.
+
+Definition count (os : list bool) : nat := length (filter (fun b => b) os).
+Definition rank (os : list bool) (i : nat) : nat := count (firstn i os).
+Definition orig (os : list bool) (i : nat) : bool := nth i os false.
+
+Definition map_idx (os : list bool) (o : option nat) : option nat :=
+  match o with
+  | Some i => if orig os i then Some (rank os i) else None
+  | None => None
+  end.
+
+(* the newest method of the awaited class is one that doc_view keeps *)
+Definition last_ok (b : bool) (e : entry) : bool :=
+  match e with
+  | EClass _ _ _ _ ct me _ =>
+      match last_opt (if b then ct else me) with Some m => m_docd m | None => true end
+  | _ => true
+  end.
+
+Definition dummy_entry : entry := EModule [] [].
+
+Definition abs_aw (st : agg) : await :=
+  match awaiting st with
+  | AwNone => AwNone
+  | AwTop i => if orig (origins st) i then AwTop (rank (origins st) i) else AwNone
+  | AwMethod i b =>
+      if orig (origins st) i && last_ok b (nth i (documented st) dummy_entry)
+      then AwMethod (rank (origins st) i) b else AwNone
+  end.
+
+Definition absn (st : agg) : agg :=
+  {| documented := map doc_view (sel (documented st) (origins st));
+     origins := map (fun _ => true) (sel (documented st) (origins st));
+     class_stack := map (map_idx (origins st)) (class_stack st);
+     def_stack := map (map_idx (origins st)) (def_stack st);
+     awaiting := abs_aw st |}.
+
+Definition norm (a : agg) : agg := with_docs (map doc_view) a.
+
+Definition flags_off : flags :=
+  {| inc_function := false; inc_macro := false; inc_cpp_class := false; inc_cpp_attr := false;
+     inc_cpp_constructor := false; inc_cpp_member := false; inc_ct_add_test := false;
+     inc_ct_add_section := false; inc_add_test := false; inc_option := false |}.
+
+(* ---- list lemmas ------------------------------------------------------------------------ *)
+
+Lemma from_doc_sel : forall st, from_doc st = sel (documented st) (origins st).
+Proof.
+  intros st. unfold from_doc. generalize (origins st) as os. generalize (documented st) as l.
+  induction l as [|x l IH]; intros [|b os]; try reflexivity.
+  cbn [combine filter snd sel]. destruct b; cbn [map fst]; rewrite IH; reflexivity.
+Qed.
+
+Lemma sel_app : forall A (l l2 : list A) os os2,
+    length l = length os -> sel (l ++ l2) (os ++ os2) = sel l os ++ sel l2 os2.
+Proof.
+  intros A l. induction l as [|x l IH]; intros l2 [|b os] os2 H; cbn in H; try discriminate.
+  - reflexivity.
+  - cbn [app sel]. destruct b; rewrite IH by lia; reflexivity.
+Qed.
+
+Lemma sel_length : forall A (l : list A) os, length l = length os -> length (sel l os) = count os.
+Proof.
+  intros A l. induction l as [|x l IH]; intros [|b os] H; cbn in H; try discriminate; [reflexivity|].
+  unfold count. cbn [sel filter]. destruct b; cbn [length]; fold (count os); rewrite IH by lia;
+    reflexivity.
+Qed.
+
+Lemma rank_app : forall os x i, i <= length os -> rank (os ++ x) i = rank os i.
+Proof.
+  intros os x i H. unfold rank. rewrite firstn_app.
+  replace (i - length os) with 0 by lia. cbn [firstn]. rewrite app_nil_r. reflexivity.
+Qed.
+
+Lemma rank_all : forall os, rank os (length os) = count os.
+Proof. intros os. unfold rank. rewrite firstn_all. reflexivity. Qed.
+
+Lemma orig_app : forall os x i, i < length os -> orig (os ++ x) i = orig os i.
+Proof. intros os x i H. unfold orig. apply app_nth1. exact H. Qed.
+
+Lemma orig_app_new : forall os b, orig (os ++ [b]) (length os) = b.
+Proof.
+  intros os b. unfold orig. rewrite app_nth2 by lia. rewrite Nat.sub_diag. reflexivity.
+Qed.
+
+Lemma orig_lt : forall os i, orig os i = true -> i < length os.
+Proof.
+  intros os i H. unfold orig in H. destruct (Nat.lt_ge_cases i (length os)) as [L|L]; [exact L|].
+  rewrite nth_overflow in H by exact L. discriminate.
+Qed.
+
+Definition idx_lt (n : nat) (o : option nat) : bool :=
+  match o with Some i => Nat.ltb i n | None => true end.
+
+Lemma map_idx_app : forall os x n o,
+    idx_lt n o = true -> n <= length os -> map_idx (os ++ x) o = map_idx os o.
+Proof.
+  intros os x n [i|] H Hn; [|reflexivity]. cbn [idx_lt] in H. apply Nat.ltb_lt in H.
+  cbn [map_idx]. rewrite orig_app by lia. rewrite rank_app by lia. reflexivity.
+Qed.
+
+Lemma sel_update_nth : forall A (f : A -> A) (l : list A) os i,
+    length l = length os ->
+    sel (update_nth i f l) os
+    = if orig os i then update_nth (rank os i) f (sel l os) else sel l os.
+Proof.
+  intros A f l. induction l as [|x l IH]; intros [|b os] i H; cbn in H; try discriminate.
+  - unfold orig. destruct i; reflexivity.
+  - destruct i as [|i].
+    + unfold orig, rank, count. cbn [update_nth sel nth firstn filter length]. destruct b; reflexivity.
+    + cbn [update_nth sel]. unfold orig, rank. cbn [nth firstn].
+      fold (orig os i). unfold count. cbn [filter].
+      rewrite IH by lia. destruct b.
+      * cbn [length]. fold (count (firstn i os)). fold (rank os i).
+        destruct (orig os i); reflexivity.
+      * fold (count (firstn i os)). fold (rank os i). reflexivity.
+Qed.
+
+Lemma nth_error_sel : forall A (l : list A) os i,
+    length l = length os -> orig os i = true ->
+    nth_error (sel l os) (rank os i) = nth_error l i.
+Proof.
+  intros A l. induction l as [|x l IH]; intros [|b os] i H Ho; cbn in H; try discriminate.
+  - unfold orig in Ho. destruct i; discriminate.
+  - destruct i as [|i].
+    + unfold orig in Ho. cbn in Ho. subst b. reflexivity.
+    + unfold orig in Ho. cbn [nth] in Ho. fold (orig os i) in Ho.
+      unfold rank. cbn [firstn]. unfold count. cbn [filter sel].
+      destruct b; cbn [length nth_error]; fold (count (firstn i os)); fold (rank os i);
+        apply IH; try lia; exact Ho.
+Qed.
+
+Lemma map_update_nth_cond : forall A B (dv : A -> B) (f : A -> A) (g : B -> B) l i,
+    (forall e, nth_error l i = Some e -> dv (f e) = g (dv e)) ->
+    map dv (update_nth i f l) = update_nth i g (map dv l).
+Proof.
+  intros A B dv f g l. induction l as [|x l IH]; intros [|i] H; cbn; try reflexivity.
+  - rewrite (H x eq_refl). reflexivity.
+  - f_equal. apply IH. intros e He. apply H. exact He.
+Qed.
+
+Lemma map_update_nth_id : forall A B (dv : A -> B) (f : A -> A) l i,
+    (forall e, nth_error l i = Some e -> dv (f e) = dv e) ->
+    map dv (update_nth i f l) = map dv l.
+Proof.
+  intros A B dv f l. induction l as [|x l IH]; intros [|i] H; cbn; try reflexivity.
+  - rewrite (H x eq_refl). reflexivity.
+  - f_equal. apply IH. intros e He. apply H. exact He.
+Qed.
+
